@@ -546,6 +546,11 @@ func (b *teletextPageBuffer) dump(lastTime time.Time) (ps []*teletextPage) {
 
 // TODO Add tests
 func (b *teletextPageBuffer) process(d *astits.PESData, t time.Time) (ps []*teletextPage) {
+	// No data
+	if len(d.Data) == 0 {
+		return
+	}
+
 	// Data identifier
 	var offset int
 	dataIdentifier := uint8(d.Data[offset])
@@ -557,7 +562,7 @@ func (b *teletextPageBuffer) process(d *astits.PESData, t time.Time) (ps []*tele
 	}
 
 	// Loop through data units
-	for offset < len(d.Data) {
+	for offset+1 < len(d.Data) {
 		// ID
 		id := uint8(d.Data[offset])
 		offset += 1
@@ -589,6 +594,11 @@ func (b *teletextPageBuffer) process(d *astits.PESData, t time.Time) (ps []*tele
 func (b *teletextPageBuffer) parseDataUnit(i []byte, id uint8, t time.Time) {
 	// Check id
 	if id != teletextPESDataUnitIDEBUSubtitleData {
+		return
+	}
+
+	// A data unit is made of 2 bytes (field parity/line offset and framing code) followed by a 42 bytes packet
+	if len(i) < 44 {
 		return
 	}
 
